@@ -9,6 +9,7 @@ package main
 import (
 	"fmt"
 	"hash/fnv"
+	"math"
 	"net/url"
 	"os"
 	"strconv"
@@ -567,6 +568,95 @@ func configBuiltSamplers(run *ev.Run) (evals int64) {
 	return
 }
 
+// levelChanges: the wrapped core's level is an AtomicLevel that is changed AFTER the sampler (and its With
+// child) were built: every sequence of length <= maxLen over {log info, log warn, SetLevel debug/warn/error},
+// all entries at one instant. An entry of a level that is disabled at the time of the call is not counted,
+// not reported to the hook and not forwarded; everything else follows the budget.
+func levelChanges(run *ev.Run, maxLen int) (evals int64) {
+	type lop struct {
+		set bool
+		lvl zapcore.Level
+	}
+	ops := []lop{{false, zapcore.InfoLevel}, {false, zapcore.WarnLevel}, {true, zapcore.DebugLevel}, {true, zapcore.WarnLevel}, {true, zapcore.ErrorLevel}}
+	name := func(o lop) string {
+		if o.set {
+			return "SetLevel(" + o.lvl.String() + ")"
+		}
+		return "log(" + o.lvl.String() + ")"
+	}
+	t0 := time.Unix(1_000_000_000, 0)
+	for n := 0; n <= 2; n++ {
+		for m := 0; m <= 2; m++ {
+			seq := make([]lop, 0, maxLen)
+			var rec func()
+			rec = func() {
+				if len(seq) > 0 && !seq[len(seq)-1].set {
+					al := zap.NewAtomicLevelAt(zapcore.DebugLevel)
+					oc, logs := observer.New(al)
+					var hooks []hookRec
+					parent := zapcore.NewSamplerWithOptions(oc, time.Hour, n, m, zapcore.SamplerHook(func(e zapcore.Entry, d zapcore.SamplingDecision) {
+						hooks = append(hooks, hookRec{e.Message, e.Level, d})
+					}))
+					child := parent.With([]zapcore.Field{{Key: "child", Type: zapcore.Int64Type, Integer: 1}})
+					counts := map[zapcore.Level]uint64{}
+					for i, o := range seq {
+						if o.set {
+							al.SetLevel(o.lvl)
+							continue
+						}
+						evals++
+						core := parent
+						if i%2 == 1 {
+							core = child
+						}
+						hooks = hooks[:0]
+						if ce := core.Check(zapcore.Entry{Level: o.lvl, Message: "a", Time: t0}, nil); ce != nil {
+							ce.Write()
+						}
+						got := logs.TakeAll()
+						wantFwd, wantHooks := false, 0
+						wantDec := zapcore.LogDropped
+						if al.Enabled(o.lvl) {
+							counts[o.lvl]++
+							wantHooks = 1
+							if admit(counts[o.lvl], n, m) {
+								wantFwd, wantDec = true, zapcore.LogSampled
+							}
+						}
+						bad := ""
+						switch {
+						case (len(got) == 1) != wantFwd || len(got) > 1:
+							bad = fmt.Sprintf("%d entries forwarded, reference says forwarded=%v", len(got), wantFwd)
+						case len(hooks) != wantHooks:
+							bad = fmt.Sprintf("hook called %d times, want %d", len(hooks), wantHooks)
+						case wantHooks == 1 && hooks[0].dec != wantDec:
+							bad = fmt.Sprintf("hook decision %d, want %d", hooks[0].dec, wantDec)
+						}
+						if bad != "" {
+							var parts []string
+							for _, x := range seq[:i+1] {
+								parts = append(parts, name(x))
+							}
+							run.Report("seq:level-changed-after-construction", fmt.Sprintf("first=%d thereafter=%d, sampler over a core whose AtomicLevel starts at debug: %s (alternating parent / With child): step %d: %s", n, m, strings.Join(parts, ", "), i, bad), map[string]any{"first": n, "thereafter": m, "ops": parts})
+							break
+						}
+					}
+				}
+				if len(seq) == maxLen {
+					return
+				}
+				for _, o := range ops {
+					seq = append(seq, o)
+					rec()
+					seq = seq[:len(seq)-1]
+				}
+			}
+			rec()
+		}
+	}
+	return
+}
+
 // zeroTimes: entries without a timestamp (Entry.Time is the zero Time, as entries made by hand or bridged
 // from records without a time are) mixed with stamped ones: every sequence of length <= maxLen over
 // {zero-time, stamped now, stamped one tick later, stamped two ticks later} for one key. The sampler compares
@@ -674,6 +764,10 @@ func main() {
 			}
 		}
 	}
+	// budgets that do not fit 32 bits (int is 64 bits wide here): they are budgets like any other
+	for _, nm := range [][2]int{{1<<32 + 2, 0}, {1 << 32, 3}, {2, 1<<32 + 4}, {math.MaxInt64, 1}} {
+		cfgs = append(cfgs, cfg{nm[0], nm[1], 10})
+	}
 	var seqs, steps atomic.Int64
 	states := map[string]bool{}
 	var mu sync.Mutex
@@ -725,6 +819,7 @@ func main() {
 		ztLen = 7
 	}
 	ztEvals := zeroTimes(run, ztLen)
+	ztEvals += levelChanges(run, 6)
 	var items []string
 	for _, mode := range []string{"inwindow", "straddle"} {
 		for n := 0; n <= 2; n++ {
@@ -741,6 +836,7 @@ func main() {
 		}
 	}
 	var sum mc.Summary
+	concSkipped := false
 	func() {
 		defer func() {
 			if p := recover(); p != nil {
@@ -750,7 +846,11 @@ func main() {
 				panic(p)
 			}
 		}()
-		sum = mc.Run(items, mc.Options{})
+		// the sequential parts have already settled the verdict on a violating tree: the interleavings of
+		// code that is wrong sequentially are not explored (extra atomic steps in such code can multiply them)
+		if concSkipped = run.Violations() > 0; !concSkipped {
+			sum = mc.Run(items, mc.Options{})
+		}
 	}()
 	for _, v := range sum.Violations {
 		run.Report("conc:"+v.Item+":"+fmt.Sprint(v.Choices), v.Detail, v)
@@ -759,6 +859,7 @@ func main() {
 		"messages are bucketed by fnv32a mod 4096 per level (the 'fixed hash' of the statement); collider of \"a\" found by search: " + collider + "; non-ASCII message " + strconv.Quote(nonASCII) + " and its collider " + strconv.Quote(nonASCIICollider),
 		"timestamps are int64 nanoseconds well inside the representable range",
 		"entries without a timestamp (the zero Time) mixed with stamped ones: every sequence up to the stated length over {zero-time, t0, t0+tick+1ns, t0+2tick+2ns}",
+		"level changes after construction: every sequence of length <= 6 over {log info, log warn, SetLevel debug / warn / error} on a sampler (first, thereafter in 0..2, parent and With child alternating) whose wrapped core's AtomicLevel is changed after the sampler was built; an entry whose level is disabled at the time of the call is neither counted nor reported to the hook",
 		"message lengths: for every length up to the stated maximum, messages that differ only in their last byte (hence in their bucket), and messages that differ only in their first byte, at one instant on a first=1 sampler",
 		"samplers built by zap.Config: SamplingConfig{Initial, Thereafter} in 0..4 x 0..4 on the production configuration and 0..2 x 0..3 on each of the 63 other combinations of {NewProductionConfig, NewDevelopmentConfig} x Development x Encoding json/console x DisableCaller x DisableStacktrace x logging through a With+Named child; 14 same-key entries at one pinned instant; lines in the sink and hook decisions against the reference",
 		"concurrent part: the sampler's atomic operations are the scheduling points; all interleavings without a preemption bound for <=4 entries, preemption bound 4 above",
@@ -770,7 +871,8 @@ func main() {
 		"evaluations":                   seqs.Load() + sum.Execs,
 		"distinct_nontrivial":           len(states) + len(sum.Outcomes),
 		"configurations_cut_short_after_50_failing_sequences": stoppedConfigs.Load(),
-		"rule": fmt.Sprintf("sequential: every sequence of length <=%d over 11 keys (incl. a non-ASCII message and a non-ASCII collider of it, and next-level messages in the neighbouring buckets) x 6 timestamp deltas {0,tick-1,tick,tick+1,-1,-(tick+1)} for first,thereafter in 0..3 and tick in {0,1ns,10ns,1s}, on the parent, alternating parent/With-child (the child derived through a field-less With(nil), With(empty) and a With of one field), and alternating between two independent samplers of the same settings, real sampler in lockstep with the reference counters; concurrent: every interleaving of 2-3 threads x 1-2 same-key entries inside / straddling a window; distinct = distinct reference counter states / admitted counts", maxLen),
+		"concurrent_part_skipped_after_sequential_violations": concSkipped,
+		"rule": fmt.Sprintf("sequential: every sequence of length <=%d over 11 keys (incl. a non-ASCII message and a non-ASCII collider of it, and next-level messages in the neighbouring buckets) x 6 timestamp deltas {0,tick-1,tick,tick+1,-1,-(tick+1)} for first,thereafter in 0..3 and tick in {0,1ns,10ns,1s} plus four budget pairs beyond 32 bits (2^32+2/0, 2^32/3, 2/2^32+4, MaxInt64/1) at tick 10ns, on the parent, alternating parent/With-child (the child derived through a field-less With(nil), With(empty) and a With of one field), and alternating between two independent samplers of the same settings, real sampler in lockstep with the reference counters; concurrent: every interleaving of 2-3 threads x 1-2 same-key entries inside / straddling a window; distinct = distinct reference counter states / admitted counts", maxLen),
 		"samples": []any{
 			map[string]any{"config": "first=1 thereafter=2 tick=10ns", "sequence": "(info,\"a\",dt=0) (info,\"" + collider + "\",dt=9) (info,\"a\",dt=10)"},
 			map[string]any{"concurrent_item": items[0]},
